@@ -785,3 +785,56 @@ func (c *freshCtx) ifaceFresh(it *types.Interface, name string, k int, text stri
 	}
 	return true
 }
+
+// freshArg decides `fresharg <callee> <k>[.field]`: at every call of <callee> in decl, the k-th argument (1-based; or
+// the named field of a composite-literal argument) is a container this function owns: newly allocated here, or a
+// fresh copy (slices.Clone, append from nil, make, ...). The callee keeps what it is handed (a cache stores the slice
+// and appends to it later), so handing it shared storage lets a later append write into memory of another owner.
+func (E *Engine) freshArg(p *packages.Package, pc *PkgContracts, decl *ast.FuncDecl, calleeText string, k int, field string) (bool, string, int, []string) {
+	c := &freshCtx{E: E, p: p, pc: pc, info: p.TypesInfo, decl: decl, param: map[types.Object]bool{}, busy: map[types.Object]bool{}, used: map[string]bool{}, spine: true, strict: true}
+	ok := true
+	sites := 0
+	ast.Inspect(decl.Body, func(n ast.Node) bool {
+		call, isCall := n.(*ast.CallExpr)
+		if !isCall || !ok {
+			return true
+		}
+		if exprStr(ast.Unparen(call.Fun)) != calleeText {
+			return true
+		}
+		sites++
+		if k < 1 || k > len(call.Args) {
+			ok = c.fail("call of %s has no argument %d", calleeText, k)
+			return true
+		}
+		arg := ast.Unparen(call.Args[k-1])
+		if field != "" {
+			cl, isLit := arg.(*ast.CompositeLit)
+			if !isLit {
+				ok = c.fail("argument %d of %s is not a composite literal: field %s cannot be resolved", k, calleeText, field)
+				return true
+			}
+			var fe ast.Expr
+			for _, el := range cl.Elts {
+				if kv, isKV := el.(*ast.KeyValueExpr); isKV {
+					if id, isID := kv.Key.(*ast.Ident); isID && id.Name == field {
+						fe = kv.Value
+					}
+				}
+			}
+			if fe == nil {
+				return true // field left at its zero value
+			}
+			arg = fe
+		}
+		if !c.container(arg) {
+			ok = false
+		}
+		return true
+	})
+	var used []string
+	for u := range c.used {
+		used = append(used, u)
+	}
+	return ok, c.why, sites, used
+}
